@@ -23,10 +23,15 @@ type cliRes struct {
 
 // runCLI executes the gotree binary built from /repo's working tree.
 func runCLI(c *Ctx, stdin string, args ...string) cliRes {
+	return runCLIT(c, 120*time.Second, stdin, args...)
+}
+
+// runCLIT is runCLI with a chosen wall-clock watchdog.
+func runCLIT(c *Ctx, limit time.Duration, stdin string, args ...string) cliRes {
 	if c.Gotree == "" {
 		panic("verif: VERIF_GOTREE not set")
 	}
-	ctx, cancel := context.WithTimeout(context.Background(), 120*time.Second)
+	ctx, cancel := context.WithTimeout(context.Background(), limit)
 	defer cancel()
 	cmd := exec.CommandContext(ctx, c.Gotree, args...)
 	cmd.Stdin = bytes.NewBufferString(stdin)
